@@ -44,6 +44,8 @@ pub const KINDS: &[&str] = &[
     "cw_pair",         // 37 (systematic weight-2 sweep)
     "cw_ghost",        // 38 (syndromes of an error at a position outside the shortened block)
     "snd_fabricate",   // 39 (token-built data codeword stream)
+    "fix_track",       // 40 (a whole finder/clock/alignment track or a segment of it inverted / stuck)
+    "fix_pair",        // 41 (systematic: two adjacent fixed modules flipped)
 ];
 
 pub fn kind_id(name: &str) -> u8 {
